@@ -232,6 +232,15 @@ def run_check(pid, tier="quick", seed=0):
         spaced = unexplained[MAX_CONFIRM::step]
         for a, b in zip(spaced[::-1], spaced):  # from both ends inwards
             cand += [x for x in (a, b) if x not in cand]
+    # ... and a few of every case kind right after the first ones (a failure that depends on what a worker did before shows up in
+    # single-call cases first; the multi-call cases of the same driver reproduce it in a new interpreter)
+    per_kind = {}
+    for i in unexplained:
+        k = cases[i].get("kind") if isinstance(cases[i], dict) else None
+        if len(per_kind.setdefault(k, [])) < 3:
+            per_kind[k].append(i)
+    extra = [i for k in per_kind for i in per_kind[k] if i not in cand[:MAX_CONFIRM]]
+    cand = cand[:MAX_CONFIRM] + extra + [i for i in cand[MAX_CONFIRM:] if i not in extra]
     for i in cand:
         if len(violations) >= MAX_CONFIRM or tried >= MAX_TRIES:
             break
